@@ -447,6 +447,124 @@ Definition fe_mux (sel : sval) (table : list sval) : option sval :=
   end.
 
 (* ------------------------------------------------------------------ *)
+(* Several slices of ONE frontend object, reads and writes (BitVector.h aliasRange / aliasVec /
+   aliasMsb / aliasLsb / getDynamicBitAlias, BitVectorSlice.cpp readPort / assignLocal).
+   The alias caches (m_rangeAlias keyed by BitVectorSlice*::operator<, m_bitAlias, m_msbAlias,
+   m_lsbAlias, m_dynamicBitAlias) are expected to be semantically transparent: the model has no
+   cache, every request is evaluated by its own definition on the current value of the object. *)
+
+(* x.part(P, idx) / x.parts(P)[idx]: BitVectorSliceDynamic(idx, P-1, width/P, width/P) *)
+Definition fe_part (p : nat) (a idx : sval) : option sval :=
+  match sv_ty idx with
+  | TU =>
+      if negb (is_vec (sv_ty a)) then None else
+      if p =? 0 then None else
+      if negb (sv_w a mod p =? 0) then None else           (* BitWidth / parts: HCL_DESIGNCHECK(divisibleBy) *)
+      let pw := sv_w a / p in
+      let ins := map (fun i => node1 (KRewire (extract_ranges (sv_w a) (i * pw) pw)) [sv_bits a]) (seq 0 p) in
+      ret (sv_ty a) (sv_pol a) (node1 (KMux p pw) (sv_bits idx :: ins))
+  | _ => None
+  end.
+(* x.part(P, i) with a constant index *)
+Definition fe_spart (p i : nat) (a : sval) : option sval :=
+  if p =? 0 then None else if negb (i <? p) then None else
+  if negb (sv_w a mod p =? 0) then None else fe_slice (i * (sv_w a / p)) (sv_w a / p) a.
+
+(* replaceSelection(rangeOffset, rangeWidth, totalWidth): input 0 = current value, input 1 = new slice value *)
+Definition replace_ranges (off w total : nat) : list rw_range :=
+  rw_add (rw_add (rw_add [] off (RW_INPUT 0 0)) (min w (total - off)) (RW_INPUT 1 0))
+         (total - (off + w)) (RW_INPUT 0 (off + w)).
+(* BitVectorSliceStatic::assignLocal; HCL_ASSERT(rangeOffset < totalWidth) *)
+Definition write_static (off w : nat) (x v : bv) : option bv :=
+  if off <? length x then Some (node1 (KRewire (replace_ranges off w (length x))) [x; v]) else None.
+Fixpoint all_some {A} (l : list (option A)) : option (list A) :=
+  match l with
+  | [] => Some []
+  | Some a :: r => match all_some r with Some t => Some (a :: t) | None => None end
+  | None :: _ => None
+  end.
+(* BitVectorSliceDynamic::assignLocal: a mux over every possible position *)
+Definition write_dyn (n mul w : nat) (idx x v : bv) : option bv :=
+  opts <- all_some (map (fun i => write_static (i * mul) w x v) (seq 0 n)) ;;
+  Some (node1 (KMux n (length x)) (idx :: opts)).
+
+Inductive sl_form :=
+| SF_dyn (w k : nat) | SF_part (p k : nat) | SF_dynbit (k : nat)
+| SF_static (off w : nat) | SF_spart (p i : nat) | SF_bit (i : nat) | SF_msb | SF_lsb | SF_upper (w : nat) | SF_lower (w : nat).
+Inductive sl_req := SR_read (f : sl_form) | SR_write (f : sl_form) (v : nat) | SR_assign (v : nat).
+
+Definition aux_get (aux : list sval) (k : nat) : option sval := nth_error aux k.
+
+Definition read_form (f : sl_form) (x : sval) (aux : list sval) : option sval :=
+  match f with
+  | SF_dyn w k => idx <- aux_get aux k ;; fe_dynslice w x idx
+  | SF_part p k => idx <- aux_get aux k ;; fe_part p x idx
+  | SF_dynbit k => idx <- aux_get aux k ;; fe_dynbit x idx
+  | SF_static off w => fe_slice off w x
+  | SF_spart p i => fe_spart p i x
+  | SF_bit i => fe_bit i x
+  | SF_msb => fe_msb x
+  | SF_lsb => fe_lsb x
+  | SF_upper w => fe_upper w x
+  | SF_lower w => fe_lower w x
+  end.
+
+(* alias = value: the value is expanded to the alias width by its own policy; vector aliases take a
+   value of the object's type, bit aliases a Bit *)
+Definition write_form (f : sl_form) (x : sval) (aux : list sval) (v : sval) : option sval :=
+  let wx := sv_w x in
+  let upd (o : option bv) := match o with Some y => Some (mk_sval (sv_ty x) (sv_pol x) y) | None => None end in
+  let vec_val (w : nat) := if sty_eqb (sv_ty v) (sv_ty x) then expand (sv_pol v) (sv_bits v) w else None in
+  let bit_val := match sv_ty v with TB => Some (sv_bits v) | _ => None end in
+  match f with
+  | SF_dyn w k =>
+      idx <- aux_get aux k ;;
+      match sv_ty idx with
+      | TU => if 16 <? sv_w idx then None else
+              y <- vec_val w ;; upd (write_dyn (N.to_nat (2 ^ N.of_nat (sv_w idx))) 1 w (sv_bits idx) (sv_bits x) y)
+      | _ => None end
+  | SF_part p k =>
+      idx <- aux_get aux k ;;
+      match sv_ty idx with
+      | TU => if p =? 0 then None else if negb (wx mod p =? 0) then None else
+              y <- vec_val (wx / p) ;; upd (write_dyn p (wx / p) (wx / p) (sv_bits idx) (sv_bits x) y)
+      | _ => None end
+  | SF_dynbit k =>
+      idx <- aux_get aux k ;;
+      match sv_ty idx with
+      | TU => if wx =? 0 then None else
+              y <- bit_val ;; upd (write_dyn (pow2_min (sv_w idx) wx) 1 1 (sv_bits idx) (sv_bits x) y)
+      | _ => None end
+  | SF_static off w => y <- vec_val w ;; upd (write_static off w (sv_bits x) y)
+  | SF_spart p i =>
+      if p =? 0 then None else if negb (i <? p) then None else if negb (wx mod p =? 0) then None else
+      y <- vec_val (wx / p) ;; upd (write_static (i * (wx / p)) (wx / p) (sv_bits x) y)
+  | SF_bit i => if i <? wx then y <- bit_val ;; upd (write_static i 1 (sv_bits x) y) else None
+  | SF_msb => if wx =? 0 then None else y <- bit_val ;; upd (write_static (wx - 1) 1 (sv_bits x) y)
+  | SF_lsb => if wx =? 0 then None else y <- bit_val ;; upd (write_static 0 1 (sv_bits x) y)
+  | SF_upper w => if wx <? w then None else y <- vec_val w ;; upd (write_static (wx - w) w (sv_bits x) y)
+  | SF_lower w => y <- vec_val w ;; upd (write_static 0 w (sv_bits x) y)
+  end.
+
+(* x = v (outside any conditional scope): a wider value makes the object grow, otherwise the value
+   is expanded to the object's width *)
+Definition assign_whole (x v : sval) : option sval :=
+  if negb (sty_eqb (sv_ty v) (sv_ty x)) then None
+  else if sv_w x <? sv_w v then Some (mk_sval (sv_ty x) (sv_pol x) (sv_bits v))
+  else y <- expand (sv_pol v) (sv_bits v) (sv_w x) ;; Some (mk_sval (sv_ty x) (sv_pol x) y).
+
+(* the requests are executed in order on one object; the result is pack(read_1, .., read_n, x_final) *)
+Fixpoint mslice_run (reqs : list sl_req) (x : sval) (aux : list sval) (reads : list sval) : option sval :=
+  match reqs with
+  | [] => fe_pack (rev reads ++ [x])
+  | SR_read f :: rest => r <- read_form f x aux ;; mslice_run rest x aux (r :: reads)
+  | SR_write f k :: rest => v <- aux_get aux k ;; x' <- write_form f x aux v ;; mslice_run rest x' aux reads
+  | SR_assign k :: rest => v <- aux_get aux k ;; x' <- assign_whole x v ;; mslice_run rest x' aux reads
+  end.
+Definition fe_mslice (reqs : list sl_req) (x : sval) (aux : list sval) : option sval :=
+  if is_vec (sv_ty x) then mslice_run reqs x aux [] else None.
+
+(* ------------------------------------------------------------------ *)
 (* The operator language of the correspondence run                       *)
 
 Inductive fop :=
@@ -468,7 +586,8 @@ Inductive fop :=
 | F_shra (n : nat) | F_dshra
 | F_dynbit | F_dynslice (w : nat)
 | F_cat | F_pack
-| F_mux.
+| F_mux
+| F_mslice (reqs : list sl_req).
 
 Definition pol_or_default (p : option pol) (a : sval) : pol :=
   match p with Some q => q | None => default_ext_pol (sv_ty a) end.
@@ -520,6 +639,7 @@ Definition fe_apply (op : fop) (args : list sval) : option sval :=
   | F_cat, _ :: _ => fe_cat args
   | F_pack, _ :: _ => fe_pack args
   | F_mux, sel :: table => fe_mux sel table
+  | F_mslice reqs, x :: aux => fe_mslice reqs x aux
   | _, _ => None
   end.
 
